@@ -93,9 +93,102 @@ pub uninterp spec fn cfg_fmt_max_integer_padding() -> usize;
 /// result (unscaled magnitude, scale) of the Newton reciprocal on a magnitude: NOT specified (accuracy undecided)
 pub uninterp spec fn inv_mag_spec(n: int, s: int, p: u64, m: RoundingMode) -> (int, int);
 
-/// results of the numeric cores of sqrt / cbrt: NOT specified (accuracy undecided)
+/// result of the numeric core of sqrt: NOT specified (accuracy undecided)
 pub uninterp spec fn sqrt_mag_spec(n: int, s: int, p: u64, m: RoundingMode) -> (int, int);
-pub uninterp spec fn cbrt_spec(n: int, s: int, p: u64, m: RoundingMode) -> (int, int);
+/// floor cube root
+pub open spec fn is_icbrt(r: int, x: int) -> bool { r >= 0 && r * r * r <= x && x < (r + 1) * (r + 1) * (r + 1) }
+/// number of zeros the cube-root core appends to an nd-digit integer at scale s for precision p: enough for 3(p+4) digits,
+/// then up to the next exponent that makes the scale a multiple of three
+pub open spec fn cbrt_shift(nd: int, s: int, p: int) -> int {
+    let e0 = if 3 * (p + 4) > nd { 3 * (p + 4) - nd } else { 0 };
+    let m3 = (s + e0) % 3;
+    e0 + (if m3 == 0 { 0 } else { 3 - m3 })
+}
+/// what the cube-root core returns for the magnitude nv > 0 at scale s:  with N = nv * 10^e (e = cbrt_shift) and
+/// R = floor(cbrt(N)), the result is sign * (R rounded to p digits by the mode table) at scale (s + e)/3 - (digits(R) - p).
+/// NOTE: this is the rounding of the FLOOR root, not of the real cube root: the remainder N - R^3 is not looked at, which
+/// is the known finding of C11 (an inexact root whose dropped digits are all zero is rounded as if it were exact).
+pub open spec fn cbrt_mag_post(nv: int, s: int, p: int, mode: RoundingMode, sign: Sign, ri: int, rs: int) -> bool {
+    let e = cbrt_shift(ndigits(nv), s, p);
+    exists|r: int| #[trigger] is_icbrt(r, nv * pow10(e)) && ndigits(r) > p
+        && ri == sgn(sign) * round_mag(r, ndigits(r) - p, mode, sign == Sign::Minus)
+        && rs == (s + e) / 3 - (ndigits(r) - p)
+}
+pub open spec fn cbrt_core_post(i: int, s: int, p: int, m: RoundingMode, ri: int, rs: int) -> bool {
+    cbrt_mag_post(iabs(i), s, p, m, sign_of(i), ri, rs)
+}
+/// (R+1)^3 > N >= b^3  ==>  R >= b
+pub proof fn lemma_cube_root_lower(r: int, n: int, b: int)
+    requires r >= 0, b >= 0, n < (r + 1) * (r + 1) * (r + 1), n >= b * b * b
+    ensures r >= b
+{
+    if r < b {
+        let a = r + 1;
+        assert(a * a * a <= b * b * b) by (nonlinear_arith) requires 0 <= a <= b;
+    }
+}
+pub proof fn lemma_cube_mono(a: int, b: int)
+    requires 0 <= a <= b
+    ensures a * a * a <= b * b * b
+{
+    assert(a * a * a <= b * b * b) by (nonlinear_arith) requires 0 <= a <= b;
+}
+pub proof fn lemma_pow10_cube(k: int)
+    requires k >= 0
+    ensures pow10(3 * k) == pow10(k) * pow10(k) * pow10(k)
+{
+    lemma_pow10_add(k, k); lemma_pow10_add(2 * k, k);
+}
+/// n >= 10^k (n >= 0)  ==>  n has more than k digits
+pub proof fn lemma_ndigits_lower(n: int, k: int)
+    requires n >= 0, k >= 0, n >= pow10(k)
+    ensures ndigits(n) >= k + 1
+{
+    lemma_ndigits_bounds(n);
+    if ndigits(n) <= k { lemma_pow10_mono(ndigits(n), k); }
+}
+/// n < 10^k (n >= 0, k >= 1)  ==>  n has at most k digits
+pub proof fn lemma_ndigits_upper(n: int, k: int)
+    requires n >= 0, k >= 1, n < pow10(k)
+    ensures ndigits(n) <= k
+{
+    lemma_ndigits_bounds(n);
+    if ndigits(n) > k { if n > 0 { lemma_pow10_mono(k, ndigits(n) - 1); } }
+}
+/// digits of a floor cube root: 3*digits(R) - 2 <= digits(N) <= 3*digits(R)
+pub proof fn lemma_icbrt_digits(r: int, n: int)
+    requires is_icbrt(r, n), r >= 1
+    ensures 3 * ndigits(r) - 2 <= ndigits(n) <= 3 * ndigits(r)
+{
+    let d = ndigits(r);
+    lemma_ndigits_bounds(r);
+    lemma_pow10_cube(d - 1); lemma_pow10_cube(d);
+    lemma_pow10_pos(d - 1); lemma_pow10_pos(d);
+    lemma_cube_mono(pow10(d - 1), r);
+    lemma_cube_mono(r + 1, pow10(d));
+    assert(n >= pow10(3 * (d - 1)));
+    assert(n < pow10(3 * d));
+    lemma_ndigits_lower(n, 3 * (d - 1));
+    lemma_ndigits_upper(n, 3 * d);
+}
+/// truncated division by three against the Euclidean one
+pub proof fn lemma_tdiv3(x: int)
+    ensures x == 3 * tdiv(x, 3) + trem(x, 3), -2 <= trem(x, 3) <= 2,
+            x >= 0 ==> trem(x, 3) == x % 3 && tdiv(x, 3) == x / 3,
+            x < 0 ==> (trem(x, 3) == 0 <==> x % 3 == 0) && (x % 3 != 0 ==> trem(x, 3) == x % 3 - 3) && trem(x, 3) <= 0
+{
+    if x < 0 {
+        let y = -x;
+        // x = -(3*(y/3) + y%3)
+        assert(y == 3 * (y / 3) + y % 3) by { lemma_fundamental_div_mod(y, 3); }
+        assert(tdiv(x, 3) == -(y / 3));
+        let r = y % 3;
+        if r == 0 { lemma_fundamental_div_mod_converse(x, 3, -(y / 3), 0); }
+        else { lemma_fundamental_div_mod_converse(x, 3, -(y / 3) - 1, 3 - r); }
+    } else {
+        lemma_fundamental_div_mod(x, 3);
+    }
+}
 /// entry-point behaviour of sqrt: zero and one are returned unchanged, negative => None, else the core on the magnitude
 pub open spec fn sqrt_post(i: int, s: int, p: u64, m: RoundingMode, ret: Option<BigDecimal>) -> bool {
     if i == 0 || same_val(i, s, 1, 0) { ret.is_some() && ret.unwrap().i() == i && ret.unwrap().s() == s }
@@ -104,7 +197,7 @@ pub open spec fn sqrt_post(i: int, s: int, p: u64, m: RoundingMode, ret: Option<
 }
 pub open spec fn cbrt_post(i: int, s: int, p: u64, m: RoundingMode, ri: int, rs: int) -> bool {
     if i == 0 || same_val(i, s, 1, 0) { ri == i && rs == s }
-    else { ri == cbrt_spec(i, s, p, m).0 && rs == cbrt_spec(i, s, p, m).1 }
+    else { cbrt_core_post(i, s, p as int, m, ri, rs) }
 }
 
 // derive(Clone) on the crate's structs (derives are dropped by R7; these bodies are what derive expands to)
